@@ -3579,7 +3579,7 @@ class LazyStackedTensorDict(TensorDictBase):
         dims_list = [dim if dim >= 0 else self.ndim + dim for dim in dims_list]
         dims_list_sort = np.argsort(dims_list)
         # find the new stack dim
-        stack_dim = dims_list_sort[self.stack_dim]
+        stack_dim = int(dims_list_sort[self.stack_dim])
         # remove that dim from the dims_list
         dims_list = [
             d if d < self.stack_dim else d - 1 for d in dims_list if d != self.stack_dim
